@@ -876,7 +876,7 @@ pub fn run_c10(rep: &mut StageReport, tier: &str, _seed: u64) {
             if n <= 2 && i >= 3 {
                 break;
             }
-            out.push(tokio::time::timeout(Duration::from_secs(60), super::wirepeers::c10_slow_rejected_replier(server.addr, &certs, i as u64, win, stall)).await.map_err(|_| "watchdog: slow rejected replier scenario did not finish in 60 s".to_string()).and_then(|r| r));
+            out.push(tokio::time::timeout(Duration::from_secs(60), super::wirepeers::c10_slow_rejected_replier(server.addr, &certs, i as u64, win, stall, i % 3 == 1)).await.map_err(|_| "watchdog: slow rejected replier scenario did not finish in 60 s".to_string()).and_then(|r| r));
         }
         server.stop();
         Ok::<_, String>(out)
